@@ -102,6 +102,8 @@ def plan(tier, seed):
 def check_graph(res, scratch, ids, choice, variant, maxlen, gi, do_findpath):
     from gaftools.gfa import GFA
 
+    res.next_call()
+
     g = build_graph(ids, choice, variant)
     if variant == "lfirst":
         text = "".join(l.line() + "\n" for l in g.links) + "".join(s.line() + "\n" for s in g.segs.values())
@@ -188,8 +190,11 @@ def expected_find_path(g, plist, fasta):
     return lines
 
 
-def check_find_path(res, scratch, g, text, plist, fasta, single=False):
+def check_find_path(res, scratch, g, text, plist, fasta, single=False, standalone=True):
     from gaftools.cli import find_path
+
+    if standalone:
+        res.next_call()
 
     gpath = os.path.join(scratch, "fp.gfa")
     fw.write_text(gpath, text)
@@ -262,7 +267,7 @@ def cli_binding(res, scratch, text=None, plist=None, fastas=(False, True)):
 
 
 def run_shard(spec, tier, scratch):
-    res = fw.ShardResult()
+    res = fw.ShardResult().begin(spec, tier)  # a result may depend on the graphs the process has loaded before (state shared between GFA objects)
     sh, of = spec["shard"], spec["of"]
     gi = 0
     for name, n, max_links, maxlen in configs(tier):
